@@ -125,4 +125,154 @@ theorem effective_eq_spec_example :
     let meth : List HSpec := [{ name := "a".toList, type := "integer", required := true }, { name := "C".toList, required := true }]
     (effective svc meth).map (·.name) = (specRequired svc meth).map (·.name) := by decide
 
+/-! ### the published list (`CombineHeaders`) -/
+
+theorem mem_putExact {h x : HSpec} {l : List HSpec} (hx : x ∈ putExact h l) : x = h ∨ x ∈ l := by
+  induction l with
+  | nil => simp [putExact] at hx; exact Or.inl hx
+  | cons y t ih =>
+    unfold putExact at hx
+    split at hx
+    · rcases List.mem_cons.mp hx with h1 | h1
+      · exact Or.inl h1
+      · exact Or.inr (List.mem_cons_of_mem _ h1)
+    · rcases List.mem_cons.mp hx with h1 | h1
+      · exact Or.inr (by rw [h1]; exact List.mem_cons_self)
+      · rcases ih h1 with h2 | h2
+        · exact Or.inl h2
+        · exact Or.inr (List.mem_cons_of_mem _ h2)
+
+theorem name_mem_putExact (h : HSpec) (l : List HSpec) : ∃ x ∈ putExact h l, x.name = h.name := by
+  induction l with
+  | nil => exact ⟨h, by simp [putExact], rfl⟩
+  | cons y t ih =>
+    unfold putExact
+    split
+    · exact ⟨h, List.mem_cons_self, rfl⟩
+    · obtain ⟨x, hx, hn⟩ := ih
+      exact ⟨x, List.mem_cons_of_mem _ hx, hn⟩
+
+theorem name_kept_putExact (h : HSpec) {l : List HSpec} {y : HSpec} (hy : y ∈ l) :
+    ∃ x ∈ putExact h l, x.name = y.name := by
+  induction l with
+  | nil => cases hy
+  | cons z t ih =>
+    unfold putExact
+    split
+    · rename_i hz
+      rcases List.mem_cons.mp hy with h1 | h1
+      · exact ⟨h, List.mem_cons_self, by rw [h1, hz]⟩
+      · exact ⟨y, List.mem_cons_of_mem _ h1, rfl⟩
+    · rcases List.mem_cons.mp hy with h1 | h1
+      · exact ⟨z, List.mem_cons_self, by rw [h1]⟩
+      · obtain ⟨x, hx, hn⟩ := ih h1
+        exact ⟨x, List.mem_cons_of_mem _ hx, hn⟩
+
+theorem mem_insertByName {h x : HSpec} {l : List HSpec} : x ∈ insertByName h l ↔ x = h ∨ x ∈ l := by
+  induction l with
+  | nil => simp [insertByName]
+  | cons y t ih =>
+    unfold insertByName
+    split
+    · simp
+    · simp only [List.mem_cons, ih]
+      constructor
+      · rintro (h1 | h1 | h1)
+        · exact Or.inr (Or.inl h1)
+        · exact Or.inl h1
+        · exact Or.inr (Or.inr h1)
+      · rintro (h1 | h1 | h1)
+        · exact Or.inr (Or.inl h1)
+        · exact Or.inl h1
+        · exact Or.inr (Or.inr h1)
+
+theorem mem_sortByName {x : HSpec} {l : List HSpec} : x ∈ sortByName l ↔ x ∈ l := by
+  unfold sortByName
+  induction l with
+  | nil => simp
+  | cons y t ih => simp only [List.foldr_cons, mem_insertByName, ih, List.mem_cons]
+
+/-- the merge step of `CombineHeaders`. -/
+def mergeStep (m : List HSpec) (h : HSpec) : List HSpec := if h.name = [] then m else putExact h m
+
+theorem mem_foldl_merge {x : HSpec} (l acc : List HSpec) (hx : x ∈ l.foldl mergeStep acc) : x ∈ acc ∨ x ∈ l := by
+  induction l generalizing acc with
+  | nil => exact Or.inl hx
+  | cons y t ih =>
+    rcases ih _ hx with h1 | h1
+    · unfold mergeStep at h1
+      split at h1
+      · exact Or.inl h1
+      · rcases mem_putExact h1 with h2 | h2
+        · exact Or.inr (by rw [h2]; exact List.mem_cons_self)
+        · exact Or.inl h2
+    · exact Or.inr (List.mem_cons_of_mem _ h1)
+
+theorem name_kept_foldl_merge (l : List HSpec) {acc : List HSpec} {y : HSpec} (hy : y ∈ acc) :
+    ∃ x ∈ l.foldl mergeStep acc, x.name = y.name := by
+  induction l generalizing acc y with
+  | nil => exact ⟨y, hy, rfl⟩
+  | cons z t ih =>
+    have : ∃ x ∈ mergeStep acc z, x.name = y.name := by
+      unfold mergeStep
+      split
+      · exact ⟨y, hy, rfl⟩
+      · exact name_kept_putExact z hy
+    obtain ⟨x, hx, hn⟩ := this
+    obtain ⟨x', hx', hn'⟩ := ih hx
+    exact ⟨x', hx', by rw [hn', hn]⟩
+
+theorem name_mem_foldl_merge (l : List HSpec) (acc : List HSpec) {y : HSpec} (hy : y ∈ l) (hn : y.name ≠ []) :
+    ∃ x ∈ l.foldl mergeStep acc, x.name = y.name := by
+  induction l generalizing acc with
+  | nil => cases hy
+  | cons z t ih =>
+    rcases List.mem_cons.mp hy with h1 | h1
+    · subst h1
+      have : ∃ x ∈ mergeStep acc y, x.name = y.name := by
+        unfold mergeStep; rw [if_neg hn]; exact name_mem_putExact y acc
+      obtain ⟨x, hx, hxn⟩ := this
+      obtain ⟨x', hx', hn'⟩ := name_kept_foldl_merge t hx
+      exact ⟨x', hx', by rw [hn', hxn]⟩
+    · exact ih _ h1
+
+/-- **nothing foreign is published**: every header parameter of an operation is a declaration of
+its service or of the method itself. -/
+theorem published_only_declared (svc meth : List HSpec) (h : HSpec) (hh : h ∈ combineHeaders svc meth) :
+    h ∈ svc ∨ h ∈ meth := by
+  unfold combineHeaders at hh
+  split at hh
+  · exact Or.inr hh
+  · split at hh
+    · exact Or.inl hh
+    · have h1 := mem_sortByName.mp hh
+      rcases mem_foldl_merge (svc ++ meth) [] h1 with h2 | h2
+      · cases h2
+      · exact List.mem_append.mp h2
+
+/-- **every declared header is published**: each named declaration of the service and of the method
+appears (by name) among the operation's header parameters. -/
+theorem published_every_declared_name (svc meth : List HSpec) (h : HSpec) (hh : h ∈ svc ∨ h ∈ meth) (hn : h.name ≠ []) :
+    ∃ p ∈ combineHeaders svc meth, p.name = h.name := by
+  unfold combineHeaders
+  split
+  · rename_i he
+    rcases hh with h1 | h1
+    · simp [List.isEmpty_iff] at he; rw [he] at h1; cases h1
+    · exact ⟨h, h1, rfl⟩
+  · split
+    · rename_i he
+      rcases hh with h1 | h1
+      · exact ⟨h, h1, rfl⟩
+      · simp [List.isEmpty_iff] at he; rw [he] at h1; cases h1
+    · obtain ⟨x, hx, hxn⟩ := name_mem_foldl_merge (svc ++ meth) [] (List.mem_append.mpr hh) hn
+      exact ⟨x, mem_sortByName.mpr hx, hxn⟩
+
+/-- the published list is a function of the operation's own declarations: the same service list
+combined with two methods gives each its own result (no operation sees another's headers). -/
+example :
+    let svc : List HSpec := [{ name := "X-B".toList, required := true }, { name := "X-C".toList, required := true }, { name := "X-T".toList, required := true }]
+    (combineHeaders svc [{ name := "A-Key".toList }]).map (·.name) = ["A-Key".toList, "X-B".toList, "X-C".toList, "X-T".toList] ∧
+    (combineHeaders svc []).map (·.name) = ["X-B".toList, "X-C".toList, "X-T".toList] := by decide
+
 end Sebuf.C09
